@@ -537,7 +537,19 @@ class Run:
     def dev_state(self, i):
         o, d = self.objs[i], self.devs[i]
         if d["t"] == "F":
-            return "F%d%d/%s" % (o._enabled, o._sw_flipped, self.due(self.m.delay.delays, "flipper_%s_ball_search" % o.name))
+            mgr = "-/-"
+            for rule in o._active_rules:
+                h = rule.software_rule_handler
+                if h is not None:       # the software EOS repulse manager of the installed rule: its flags and timed handler
+                    due = "-"
+                    sc = self.m.switch_controller
+                    for key, entries in sc._active_timed_switches.get(h.eos_switch.switch, {}).items():
+                        if any(e.callback == h._eos_closed_long_enough for e in entries):
+                            due = str(round((key - self.vm.now()) * 1000))
+                    mgr = "%d%d%d/%s" % (h._button_is_active, h._is_eos_closed_long_enough,
+                                          getattr(h, "_enabled_by_repulse", False), due)
+            return "F%d%d/%s/%s" % (o._enabled, o._sw_flipped,
+                                    self.due(self.m.delay.delays, "flipper_%s_ball_search" % o.name), mgr)
         return "A%d%d/%s/%s/%d" % (o._enabled, o._ball_search_in_progress, self.due(o.delay.delays, "_timeout_enable_delay"),
                                    self.due(o.delay.delays, "ball_search_ignore_done"), len(o._timeout_hits))
 
@@ -595,8 +607,10 @@ def parse_model(line):
 def pending_dues(mobs):
     out = set()
     for d in mobs["d"]:
-        for x in d.split("/")[1:]:
-            if x not in ("-",) and "/" not in x:
+        parts = d.split("/")
+        dues = [parts[1], parts[3]] if d.startswith("F") else parts[1:3]
+        for x in dues:
+            if x != "-":
                 out.add(x)
     return out
 
@@ -977,17 +991,17 @@ def run(ctx):
     try:
         for devs, ops in DIRECTED:
             run_case(ctx, devs, False, ops, model)
-        for i in range(ctx.n(520, 5000)):
+        for i in range(ctx.n(400, 5000)):
             r = ctx.rng("direct", i)
             devs, ops = gen_case(r, False)
             run_case(ctx, devs, False, ops, model)
-        for i in range(ctx.n(150, 1200)):
+        for i in range(ctx.n(130, 1200)):
             devs, ops = gen_eos_case(ctx.rng("eos", i))
             run_case(ctx, devs, False, ops, model)
-        for i in range(ctx.n(80, 800)):
+        for i in range(ctx.n(70, 800)):
             devs, ops = gen_window_case(ctx.rng("window", i))
             run_case(ctx, devs, False, ops, model)
-        for i in range(ctx.n(160, 1200)):
+        for i in range(ctx.n(140, 1200)):
             r = ctx.rng("game", i)
             devs, ops = gen_case(r, True)
             run_case(ctx, devs, True, ops, model)
@@ -997,7 +1011,15 @@ def run(ctx):
 
 
 def replay(ctx, rep):
-    c = rep["case"]
+    c = rep.get("case")
+    if c is None:       # a correspondence / proof replay names no failing input: re-run the oracle on its first case
+        dis = (rep.get("broken") or {}).get("correspondence") or []
+        if not dis:
+            return
+        c = dis[0]["case"]
+    for o in c["ops"]:
+        if o[0] == "setting":
+            o[1] = float(o[1])
     sig, detail, _ = run_ops(c["devs"], c["game"], c["ops"])
     if sig is not None and sig != "boot":
         ctx.fail(sig, c, detail)
